@@ -376,6 +376,12 @@ func runH2(k *kernel.K, focus string) {
 			if w.Chance(1, 25) {
 				out = append(out, &H2Op{Kind: "settings", Settings: []http2.Setting{{ID: http2.SettingMaxFrameSize, Val: []uint32{16384, 30000}[w.Draw(2)]}}})
 			}
+			if w.Chance(1, 20) {
+				// the header table size changes in mid-session (often downwards): header blocks the
+				// other side encoded before it has seen this frame are on their way meanwhile
+				out = append(out, &H2Op{Kind: "settings", Settings: []http2.Setting{{ID: http2.SettingHeaderTableSize, Val: []uint32{0, 64, 200, 4096, 8192}[w.Draw(5)]}}})
+				k.Probe("header_table_size_changed_mid_session")
+			}
 		}
 		if w.Chance(1, 8) {
 			out = append(out, &H2Op{Kind: "goaway", Last: uint32(2*nstreams - 1), Code: uint32(w.Draw(3)), Debug: []byte("bye")})
